@@ -84,16 +84,18 @@ def a_tshift(draw, i):
     n, ss = max(i["n"], 1), i["sshape"]
     val = st.one_of(st.integers(-n - 1, n + 1).map(float), st.integers(-3, 3).map(float),
                     st.tuples(st.integers(-3, 3), st.integers(1, 1023)).map(lambda t: t[0] + t[1] / 1024),
-                    st.sampled_from([0.0, 1e-9, -1e-9, 5e-9, -3e-10]))
-    form = draw(st.sampled_from(["float", "float", "arr", "time", "int"]))
+                    st.sampled_from([0.0, 1e-9, -1e-9, 5e-9, -3e-10]),
+                    # one ulp off a whole sample (3 * (1 / 5) * 5 = 3.0000000000000004)
+                    st.tuples(st.integers(-3, 3), st.sampled_from([-1.0, 1.0])).map(lambda t: float(np.nextafter(float(t[0]), t[1] * np.inf))))
+    form = draw(st.sampled_from(["float", "float", "arr", "arr", "time", "int"]))
     if form == "arr" and ss:
         k = draw(st.integers(1, len(ss)))
         shp = [d if draw(st.booleans()) else 1 for d in ss[:k]]
         m = int(np.prod(shp))
         vals = np.array(draw(st.lists(val, min_size=m, max_size=m))).reshape(shp).tolist()
+    elif form == "arr":
+        form, vals = "arr", draw(val)  # (a 0-d array)
     else:
-        if form == "arr":
-            form = "float"
         vals = draw(val)
         if form == "int":
             vals = float(int(vals))
